@@ -244,6 +244,7 @@ func (d *mapDecoder) DecodePath(ctx *RuntimeContext, cursor, depth int64) ([][]b
 			if child != nil {
 				oldPath := ctx.Option.Path.node
 				ctx.Option.Path.node = child
+				verifYield("dec-path:node-advanced")
 				paths, c, err := d.valueDecoder.DecodePath(ctx, cursor, depth)
 				if err != nil {
 					return nil, 0, err
